@@ -55,7 +55,8 @@ fn packs<P: SimPrefix>(ctx: &mut Ctx, w: &mut World<P>) -> R {
             pack_c02_map(ctx, &cfg, &mut w.maps[i].real, &t)?;
         }
         if ctx.wants("C03") {
-            pack_c03_map(ctx, &mut w.maps[i].real, &t)?;
+            let hist: Vec<(crate::key::Key, u64)> = w.maps[i].model.iter().map(|(k, x)| (*k, x.1)).collect();
+            pack_c03_map(ctx, &mut w.maps[i].real, &t, &hist)?;
         }
         if ctx.wants("C04") {
             let (l, e) = ctx.obs("C04", "len", || (w.maps[i].real.len(), w.maps[i].real.is_empty()))?;
@@ -103,7 +104,8 @@ fn packs<P: SimPrefix>(ctx: &mut Ctx, w: &mut World<P>) -> R {
             pack_c02_set(ctx, &cfg, &w.sets[i].real, &t)?;
         }
         if ctx.wants("C03") {
-            pack_c03_set(ctx, &w.sets[i].real, &t)?;
+            let hist: Vec<crate::key::Key> = w.sets[i].model.keys().copied().collect();
+            pack_c03_set(ctx, &w.sets[i].real, &t, &hist)?;
         }
         if ctx.wants("C04") {
             let (l, e) = ctx.obs("C04", "set.len", || (w.sets[i].real.len(), w.sets[i].real.is_empty()))?;
